@@ -259,6 +259,9 @@ var Faults = []string{
 	"overlapping-paths", "invalid-pattern-param", "invalid-pattern-header", "invalid-pattern-schema", "invalid-pattern-items",
 	"missing-paths", "empty-placeholder",
 	"array-no-items-referenced-response-typelist", "two-body-params-go-name-collision",
+	// shapes which the Swagger meta-schema pre-checks let through, so that only the rule itself can report them
+	"array-empty-items-header-among-responses", "array-typelist-no-items-response-schema-among-responses",
+	"array-empty-items-param", "array-empty-nested-items-param", "array-empty-nested-items-header",
 }
 
 func (g *SpecGen) params(op map[string]any) []any {
@@ -508,6 +511,49 @@ func (g *SpecGen) Apply(fault string) (applied bool, strictOnly bool) {
 			break
 		}
 		defs["Child"+g.Tag] = map[string]any{"allOf": []any{map[string]any{"$ref": "#/definitions/" + base}, map[string]any{"type": "object", "properties": map[string]any{pn: map[string]any{"type": "string"}}}}}
+		return true, false
+	case "array-empty-items-header-among-responses", "array-typelist-no-items-response-schema-among-responses", "array-empty-nested-items-header":
+		// the operation gets several status-code responses; the offending one is any of them
+		o := g.anyOp()
+		resps := o.op["responses"].(map[string]any)
+		for _, code := range []string{"201", "202", "404"} {
+			if _, exists := resps[code]; !exists {
+				resps[code] = map[string]any{"description": "plain " + code}
+			}
+		}
+		var codes []string
+		for _, code := range sortedKeys(resps) {
+			if m, ok := resps[code].(map[string]any); ok && code != "default" {
+				if _, isRef := m["$ref"]; !isRef {
+					codes = append(codes, code)
+				}
+			}
+		}
+		target := resps[codes[g.R.Intn(len(codes))]].(map[string]any)
+		switch fault {
+		case "array-typelist-no-items-response-schema-among-responses":
+			delete(target, "examples")
+			target["schema"] = map[string]any{"type": []any{"array"}}
+		default:
+			h, _ := target["headers"].(map[string]any)
+			if h == nil {
+				h = map[string]any{}
+				target["headers"] = h
+			}
+			if fault == "array-empty-nested-items-header" {
+				h["X-Arr"] = map[string]any{"type": "array", "items": map[string]any{"type": "array", "items": map[string]any{}}}
+			} else {
+				h["X-Arr"] = map[string]any{"type": "array", "items": map[string]any{}}
+			}
+		}
+		return true, false
+	case "array-empty-items-param":
+		o := g.anyOp()
+		o.op["parameters"] = append(g.params(o.op), map[string]any{"name": "arre", "in": "query", "type": "array", "items": map[string]any{}})
+		return true, false
+	case "array-empty-nested-items-param":
+		o := g.anyOp()
+		o.op["parameters"] = append(g.params(o.op), map[string]any{"name": "arre2", "in": "query", "type": "array", "items": map[string]any{"type": "array", "items": map[string]any{}}})
 		return true, false
 	case "array-no-items-referenced-response-typelist":
 		// a response of the top-level section, referred to by an operation, whose schema is an array (type given as a
